@@ -277,3 +277,19 @@ Lemma connglue_example :
      [0]; [0]; [0]; [3; 150; 151; 152; 3; 0; 150; 1; 151; 2; 152; 0]; [3; -1; -1; -1; 0; 0]] /\
   g_lims (snd (cgrun (cg_init true) (mkGh [] 0) cg_ex)) = [150; 151; 152].
 Proof. split; [repeat constructor; cbn; lia|]. vm_compute. split; reflexivity. Qed.
+
+(** one stream's share of a drain, precisely: a stream that still has data although the
+    connection has credit left has used its window up to the last byte, and a
+    STREAM_DATA_BLOCKED carries exactly that window (= the offset reached). *)
+Theorem drain_stream_exact s conn l s1 c1 e blk :
+  drain_stream s conn = (s1, c1, e, blk) -> SOK s l -> bytesSent conn <= sendWindow conn ->
+  (0 < cs_pending s1 -> 0 < b_sendWindowSize c1 -> bytesSent (cs_fc s1) = sendWindow (cs_fc s1)) /\
+  (blk <> -1 -> blk = sendWindow (cs_fc s1) /\ bytesSent (cs_fc s1) = blk /\
+                lastBlockedAt (cs_fc s) <> blk /\ lastBlockedAt (cs_fc s1) = blk) /\
+  (blk = -1 -> lastBlockedAt (cs_fc s1) = lastBlockedAt (cs_fc s)) /\
+  sendWindow (cs_fc s1) = sendWindow (cs_fc s).
+Proof.
+  unfold drain_stream, SOK, b_sendWindowSize, b_addBytesSent, b_isNewlyBlocked.
+  intros H (H1 & H2 & H3) Hc. destruct s as [id fc pend]. cbn in *.
+  brk; inversion H; subst; cbn in *; repeat split; intros; try lia.
+Qed.
